@@ -20,7 +20,7 @@
 //   - promoted methods of embedded structs are resolved when inlining (b.retryTimeoutArrived() on a
 //     *slowRtCircuitBreaker);
 //   - `x == nil` / `x != nil` on an opaque variable is the parameter <x>_nil;
-//   - `a, b := f()` with an opaque hint for `f()` makes a and b opaque;
+//   - `a, b := f()` with an opaque hint {V, "opaque"} for `f()` makes a and b opaque, known as V_0, V_1;
 //   - an `interface{}` parameter is an abstract value id (Z);
 //   - Lit: the target is a function literal inside the named function (an exit hook, a callback).
 //
@@ -45,6 +45,7 @@ type act struct {
 const (
 	keyTrace = "\x00trace"
 	keyOcc   = "\x00occ:"
+	keyRange = "\x00range" // value variable of the range loop whose body is being read
 )
 
 // preamble of Leaf_gen.v
@@ -97,8 +98,17 @@ func (x *tr) lookupAct(e *ast.CallExpr) (act, bool) {
 	if a, ok := x.t.Acts[src(x.p.fset, e)]; ok {
 		return a, true
 	}
-	a, ok := x.t.Acts[src(x.p.fset, e.Fun)]
-	return a, ok
+	if a, ok := x.t.Acts[src(x.p.fset, e.Fun)]; ok {
+		return a, true
+	}
+	// a method of the value variable of the enclosing range loop: key "<range>.Method"
+	if se, ok := e.Fun.(*ast.SelectorExpr); ok {
+		if id, ok := se.X.(*ast.Ident); ok && id.Name != "" && id.Name == x.vars[keyRange] {
+			a, ok := x.t.Acts["<range>."+se.Sel.Name]
+			return a, ok
+		}
+	}
+	return act{}, false
 }
 
 func (x *tr) containsAct(e ast.Expr) bool {
@@ -224,13 +234,16 @@ func (x *tr) opaqueMulti(s *ast.AssignStmt) bool {
 	if !ok || h.Typ != "opaque" {
 		return false
 	}
-	for _, l := range s.Lhs {
+	for i, l := range s.Lhs {
 		id, ok := l.(*ast.Ident)
 		if !ok {
 			return false
 		}
 		if id.Name != "_" {
 			x.vars[id.Name] = "ptr:?"
+			if h.Var != "" { // parameters derived from it (nil tests) do not depend on the local's name
+				x.alias[id.Name] = fmt.Sprintf("%s_%d", h.Var, i)
+			}
 		}
 	}
 	return true
@@ -270,6 +283,9 @@ func (x *tr) nilTest(e *ast.BinaryExpr) (val, bool) {
 func (x *tr) execLoop(s *ast.RangeStmt, tail []ast.Stmt, rest [][]ast.Stmt) string {
 	var assigned []string
 	seen := map[string]bool{}
+	if id, ok := s.Value.(*ast.Ident); ok && id.Name != "_" {
+		x.vars[keyRange] = id.Name
+	}
 	for _, st := range s.Body.List {
 		switch st := st.(type) {
 		case *ast.ExprStmt:
@@ -304,6 +320,7 @@ func (x *tr) execLoop(s *ast.RangeStmt, tail []ast.Stmt, rest [][]ast.Stmt) stri
 			fail("loop body statement %s", src(x.p.fset, st))
 		}
 	}
+	delete(x.vars, keyRange)
 	pre := ""
 	for _, n := range assigned {
 		h := x.t.LoopVars[n]
